@@ -102,6 +102,12 @@ def has_kind(desc, kinds):
     return any(has_kind(c, kinds) for c in children(desc))
 
 
+def has_key(desc, key):
+    if desc.get(key):
+        return True
+    return any(has_key(c, key) for c in children(desc))
+
+
 def children(desc):
     k = desc['k']
     if k in ('SEQ', 'SET'):
@@ -217,6 +223,10 @@ def add_random_tag(r, cfg, d):
 
 def gen_prim(r, cfg, k):
     d = D(k)
+    if k in ('NUMERIC', 'PRINTABLE', 'IA5', 'VISIBLE') and r.random() < 0.12:
+        # a text encoding other than the type's default (class-level `encoding` of a user subclass, or the
+        # `encoding=` keyword): non-ASCII text becomes possible
+        d['enc'] = r.choice(['utf-8', 'iso-8859-1'])
     if k == 'ENUMERATED':
         nums = r.sample([0, 1, 2, 5, 127, 128, -1, -129, 70000], r.randrange(1, 5))
         d['named'] = [['e%d' % i, n] for i, n in enumerate(nums)]
@@ -560,6 +570,8 @@ def _gen_value(r, desc, vc=None, govmap=None):
         hi = None if hi == 'MAX' else hi
         n = _len_choice(r, vc, lo, hi)
         alpha = con.get('alpha') or ALPHABETS[k]
+        if desc.get('enc') and not con.get('alpha'):
+            alpha = alpha + u'\u00e9\u00fc'
         return ''.join(r.choice(alpha) for _ in range(n))
     if k == 'GENTIME':
         return r.choice(GENTIMES)
@@ -710,6 +722,8 @@ def build_schema(desc):
     con = _constraint(desc)
     if k == 'ENUMERATED':
         kw['namedValues'] = p.namedval.NamedValues(*[(n, v) for n, v in desc['named']])
+    if desc.get('enc'):
+        kw['encoding'] = desc['enc']
     if k in ('SEQ', 'SET'):
         nts = []
         for f in desc['fields']:
@@ -739,7 +753,7 @@ def build_schema(desc):
     class_tags = False
     if STYLE[0] == 'class' and not api:
         attrs = {}
-        for key in ('componentType', 'namedValues'):
+        for key in ('componentType', 'namedValues', 'encoding'):
             if key in kw:
                 attrs[key] = kw.pop(key)
         if 'subtypeSpec' in kw:
@@ -955,7 +969,14 @@ def absval(o, with_tags=True):
         # asBinary() of the empty bit string is '0', the same as of the single bit 0
         return head + (o.asBinary() if len(o) else '',)
     if isinstance(o, univ.OctetString):
-        return head + (o.asOctets(),)
+        try:
+            return head + (o.asOctets(),)
+        except p.error.PyAsn1Error:
+            # a character string holding text its own encoding cannot express: described by the text itself
+            try:
+                return head + ('unencodable-text', str(o))
+            except Exception as e:
+                return head + ('unencodable-text', type(e).__name__)
     if isinstance(o, univ.ObjectIdentifier):
         return head + (o.asTuple(),)
     if isinstance(o, univ.Real):
@@ -1131,6 +1152,10 @@ def codec(name):
         return benc, bdec, {}
     if name == 'ber-indef':
         return benc, bdec, {'defMode': False}
+    if name == 'ber-indef-int':
+        return benc, bdec, {'defMode': 0}           # the flag given the old way, as an integer
+    if name == 'ber-def-int':
+        return benc, bdec, {'defMode': 1}
     if name.startswith('ber-chunk'):
         return benc, bdec, {'maxChunkSize': int(name.split(':')[1]) if ':' in name else 3}
     if name.startswith('ber-indef-chunk'):
@@ -1142,10 +1167,40 @@ def codec(name):
     raise ValueError(name)
 
 
+_RAWDUMP = []
+
+
+def _rawdump_module():
+    """The documented customisation of the BER decoder (cf. upstream testRawDump): user subclasses wired together
+    through SINGLE_ITEM_DECODER / STREAMING_DECODER, here with defaultErrorState = stDumpRawValue, so that items
+    with unrecognised tags are returned as raw ANY values instead of being refused."""
+    if not _RAWDUMP:
+        from pyasn1.codec.ber import decoder as bdec
+
+        class RawDumpSingleItemDecoder(bdec.SingleItemDecoder):
+            defaultErrorState = bdec.stDumpRawValue
+
+        class RawDumpStreamingDecoder(bdec.StreamingDecoder):
+            SINGLE_ITEM_DECODER = RawDumpSingleItemDecoder
+
+        class RawDumpDecoder(bdec.Decoder):
+            STREAMING_DECODER = RawDumpStreamingDecoder
+
+        class _Mod(object):
+            __name__ = 'ber-rawdump'
+        m = _Mod()
+        m.StreamingDecoder = RawDumpStreamingDecoder
+        m.decode = RawDumpDecoder()
+        _RAWDUMP.append(m)
+    return _RAWDUMP[0]
+
+
 def decoder_module(name):
     from pyasn1.codec.ber import decoder as bdec
     from pyasn1.codec.cer import decoder as cdec
     from pyasn1.codec.der import decoder as ddec
+    if name == 'ber-rawdump':
+        return _rawdump_module()
     return {'ber': bdec, 'cer': cdec, 'der': ddec}[name]
 
 
